@@ -149,6 +149,12 @@ func (ch *dagChannel) get(isStream bool) (any, bool, error) {
 		}
 	}
 
+	for _, value := range ch.Values {
+		if failed, ok := value.(*edgeFailure); ok {
+			return nil, false, failed.failure()
+		}
+	}
+
 	defer func() {
 		ch.Values = make(map[string]any)
 		for k := range ch.ControlPredecessors {
@@ -193,4 +199,5 @@ func init() {
 	// the input of a Loader node: the only input/output type of the built-in components that the
 	// serialization package (which cannot import the components) does not register itself
 	serialization.GenericRegister[document.Source]("_eino_document_source")
+	serialization.GenericRegister[edgeFailure]("_eino_edge_failure")
 }
